@@ -42,7 +42,7 @@ CHECKS = {
    note="Trusted: the SimSocket stub (validated against real loopback sockets by `./check selftest fidelity`; socket API it does not model "
         "is a HARNESS-ERROR, never a violation), the reference model (50 lines), single-threaded use, call-backs that do not mutate the rule "
         "tables. Not covered: serial/ROS/OPC bridges, send-side errors, time-out 0, exhaustive depth-5 enumeration (a model-checking clause; "
-        "this family samples). Sensitivity: own mutants, 18 independently seeded changes and 27 reviewer-written variants "
+        "this family samples). Sensitivity: own mutants, 19 independently seeded changes and 27 reviewer-written variants "
         "(`./check selftest mutants|seeded|variants C19`).",
    technique="deterministic simulation: virtual-clock UDP network + seeded history/fault search + per-step refinement against a reference model"),
  "C16": dict(
